@@ -170,7 +170,7 @@ class Tracker(CmdMixin, MboxMixin, SweepMixin, Monitor):
             # a bind whose client_version is not the documented pair: whatever the server answers (today it fails
             # internally) is not judged by any property; what it leaves behind for later commands is
             self.dontcare["bind_with_malformed_client_version"] += 1
-        if st.exc and st.kind in ("cmd", "connect", "drop") and not f8 and not outside:
+        if st.exc and st.kind in ("cmd", "connect", "drop", "turn", "closing") and not f8 and not outside:
             # the command's own guarantee is broken too (close always completes, release is always answered, ...)
             own = {"close": "C08", "release": "C07", "claim": "C03", "open": "C01", "add": "C02", "allocate": "C04", "list": "C18"}
             t = st.msg.get("type") if isinstance(st.msg, dict) else None
